@@ -176,8 +176,15 @@ def parse_N_list(out):
     return res
 
 
-def replay_cases(prop, corr_module, cases, shard=200, timeout=900, group_imports=None):
-    """cases: list of dicts with id, group, args, exp. Returns (mismatch_ids, errors, n_shards)."""
+def replay_cases(prop, corr_module, cases, shard=200, timeout=900, group_imports=None, monitors=None):
+    """cases: list of dicts with id, group, args, exp. Returns (mismatch_ids, errors, n_shards).
+    monitors (optional): list of dicts with `imports` (a Coq command) and `expr` (a Coq term of type `list N` over the
+    shard's `cases` list: the ids on which a monitored hypothesis fails). Each adds one more `Eval vm_compute` to every
+    generated Cases file - the same parsed case list, no second file - and gets `checks` (cases evaluated) and
+    `failures` (list of ids) filled in."""
+    monitors = monitors or []
+    for m in monitors:
+        m["checks"], m["failures"] = 0, []
     os.makedirs(GEN, exist_ok=True)
     for f in os.listdir(GEN):
         if f.startswith("Cases_%s_" % prop):
@@ -190,11 +197,13 @@ def replay_cases(prop, corr_module, cases, shard=200, timeout=900, group_imports
         for k in range(0, len(cs), shard):
             name = "Cases_%s_%s_%d.v" % (prop, re.sub(r"\W", "_", g), k // shard)
             body = ["From Sq Require Import Base.Corr %s." % corr_module] + \
-                   ([group_imports(g)] if group_imports else []) + ["Open Scope N_scope.",
+                   ([group_imports(g)] if group_imports else []) + [m["imports"] for m in monitors] + ["Open Scope N_scope.",
                     "Definition cases : list case_t_%s := [" % re.sub(r"\W", "_", g)]
             body.append(";\n".join("(%d, %s, %s)" % (c["id"], c["args"], c["exp"]) for c in cs[k:k + shard]))
             body.append("].")
             body.append("Eval vm_compute in mismatches check_%s cases." % re.sub(r"\W", "_", g))
+            for m in monitors:
+                body.append("Eval vm_compute in (%s)." % m["expr"])
             open(os.path.join(GEN, name), "w").write("\n".join(body) + "\n")
             jobs.append((name, [c["id"] for c in cs[k:k + shard]]))
     mism, errors = [], []
@@ -204,10 +213,13 @@ def replay_cases(prop, corr_module, cases, shard=200, timeout=900, group_imports
             name, ids = futs[fut]
             rc, out = fut.result()
             blocks = parse_N_list(out)
-            if rc != 0 or len(blocks) != 1:
+            if rc != 0 or len(blocks) != 1 + len(monitors):
                 errors.append("%s: rc=%d %s" % (name, rc, out[-1500:]))
             else:
                 mism += blocks[0]
+                for m, b in zip(monitors, blocks[1:]):
+                    m["checks"] += len(ids)
+                    m["failures"] += b
     for f in os.listdir(GEN):
         if f.startswith("Cases_%s_" % prop) and not f.endswith(".v"):
             os.remove(os.path.join(GEN, f))
